@@ -54,8 +54,9 @@ fn print_usage(program_name: &str, opts: Options) {
 const VERSION: &'static str = env!("CARGO_PKG_VERSION");
 
 fn main_real() -> Result<bool, Error> {
-    let args: Vec<String> = env::args().collect();
-    let program_name = args[0].clone();
+    // not env::args(): it panics on an argument that is not valid UTF-8; getopts reports such an argument as an error
+    let args: Vec<std::ffi::OsString> = env::args_os().collect();
+    let program_name = args[0].to_string_lossy().into_owned();
     let mut opts = Options::new();
     let mut run_options = RunOptions::default();
     opts.optflag("c", "check", "check syntax only");
